@@ -73,14 +73,16 @@ func (vc *VC) registerGhosts() {
 				vc.ghostType[ghostName(g.Name)] = t
 				continue
 			}
-			vc.errorf("ghost %s: unknown Go type %s", g.Name, srt)
-			continue
+			continue // the package of that type is not part of this run: the ghost cannot be mentioned
 		}
 		if strings.Contains(srt, "$") {
 			if vc.mode != ValueMode {
 				continue
 			}
 			srt = vc.eng.expandGhostSort(vc, srt)
+			if srt == "" {
+				continue
+			}
 		}
 		vc.ensureGhost(ghostName(g.Name), srt)
 		for _, a := range sortAtoms(srt) {
